@@ -122,7 +122,16 @@ func genStruct(r *core.RNG, name string, n int) OriginType {
 			fn = fn + "x"
 		}
 		used[fn] = true
-		f := fld(fn, genTy(r), genTag(r))
+		ty := genTy(r)
+		if r.Chance(6) {
+			// a field typed through an alias declaration of the origin package (top level: any alias; below: nameable targets)
+			if r.Chance(70) {
+				ty = core.Pick(r, append(append([]Ty{}, aliasUnnameable...), aliasNameable...))
+			} else {
+				ty = nestedNameable(r)
+			}
+		}
+		f := fld(fn, ty, genTag(r))
 		if r.Chance(15) {
 			f.Doc = core.Pick(r, []string{fn + " is documented", "+gengo:whatever=1", "plain words.\nsecond line", "TODO: x"})
 		}
@@ -162,6 +171,15 @@ func genInput(r *core.RNG) Input {
 	in.LibPkg = pickDistinct(r, libPkgs, in.OriginPkg)
 	if r.Chance(25) {
 		in.WithAs = r.Intn(5)
+	}
+	if r.Chance(12) {
+		// package clauses unlike the directories (also: like the other package's directory)
+		if r.Bool() {
+			in.LibDecl = core.Pick(r, []string{"currency", "libv2", in.OriginPkg, "model"})
+		}
+		if r.Bool() || in.LibDecl == "" {
+			in.OriginDecl = core.Pick(r, []string{"model", "api", in.LibPkg, "v1"})
+		}
 	}
 	nTypes := 1 + r.Intn(3)
 	for i := 0; i < nTypes; i++ {
@@ -314,6 +332,199 @@ func sameTypeInputs(r *core.RNG, tier string) []Input {
 			}
 		}
 	}
+	return out
+}
+
+// ---- fields typed through alias declarations of the origin package ----
+//
+// `type Items = []hid.Item` (hid = <origin>/internal/hid, a package the partial package may not import),
+// `type Index = map[string]hidden` (an unexported type), alias of alias, alias of pointer / array / named struct / scalar,
+// aliases of types that ARE nameable (lib.Item, []string, time.Duration, origin.Inner, origin.WithAs with its own
+// DeepCopyAs methods).  Since Go 1.23 go/types hands the generator a *types.Alias for such a field: the struct must
+// spell the alias NAME (the right-hand side may not be writable in the partial package at all) and the copy body must
+// compile against it.  Below the top level (`[]origin.LItem`) the dumper prints the right-hand side; that is the same
+// type, and fine as long as it can be written (nameable targets; unnameable ones = known finding
+// nested_alias_of_unnameable_type).
+func alias(name string, rhs Ty) Ty { return Ty{K: "alias", Pkg: "origin", Name: name, Elem: &rhs} }
+
+var (
+	hidItem  = named("internal", "Item")
+	hidEntry = named("internal", "Entry")
+	hidCode  = named("internal", "Code")
+	hiddenT  = named("origin", "hidden")
+	secretT  = named("origin", "secret")
+
+	aItems = alias("Items", slice(hidItem))
+	aItem  = alias("Item", hidItem)
+	aH     = alias("H", hiddenT)
+	aLItem = alias("LItem", named("lib", "Item"))
+	aMyInt = alias("MyInt", basic("int"))
+	aNames = alias("Names", slice(basic("string")))
+	aInner = alias("InnerA", named("origin", "Inner"))
+)
+
+// aliases whose right-hand side mentions a type the partial package cannot name (top-level use only in the passing stream)
+var aliasUnnameable = []Ty{
+	aItems, alias("Index", mapOf(basic("string"), hidEntry)), aItem, alias("Items2", aItems), alias("PItem", ptr(hidItem)),
+	alias("Arr", array(2, hidItem)), alias("HS", slice(hiddenT)), alias("HM", mapOf(basic("string"), hiddenT)), aH,
+	alias("HP", ptr(hiddenT)), alias("ByCode", mapOf(hidCode, basic("string"))), alias("Sec", secretT),
+	alias("SecIdx", mapOf(secretT, slice(hidItem))), alias("Deep", alias("Deeper", mapOf(basic("int"), ptr(hidEntry)))),
+	alias("ItemPtrs", slice(ptr(hidItem))), alias("OfAlias", slice(aItem)),
+}
+
+// aliases of types the partial package can name as well
+var aliasNameable = []Ty{
+	aNames, alias("Labels", mapOf(basic("string"), basic("string"))), alias("LItems", slice(named("lib", "Item"))), aLItem, aMyInt,
+	alias("Dur", named("time", "Duration")), aInner, alias("KindA", named("origin", "Kind")), alias("Inners", slice(named("origin", "Inner"))),
+	alias("ByKind", mapOf(named("origin", "Kind"), named("lib", "Item"))), alias("WithAsA", named("origin", "WithAs")),
+	alias("IfaceA", named("origin", "Iface")), alias("AnyA", anyTy()), alias("PInner", ptr(named("origin", "Inner"))),
+	alias("Names2", aNames), alias("Stamp", named("time", "Time")), alias("Pair", array(2, basic("string"))),
+}
+
+// composite types with a NAMEABLE alias below the top level: rendered through the right-hand side, same type
+func nestedNameable(r *core.RNG) Ty {
+	a := core.Pick(r, []Ty{aLItem, aMyInt, aNames, aInner, alias("KindA", named("origin", "Kind")), alias("Dur", named("time", "Duration"))})
+	switch r.Intn(5) {
+	case 0:
+		return slice(a)
+	case 1:
+		return mapOf(basic("string"), a)
+	case 2:
+		return ptr(a)
+	case 3:
+		return array(2, a)
+	default:
+		return mapOf(core.Pick(r, []Ty{aMyInt, alias("KindA", named("origin", "Kind"))}), slice(a))
+	}
+}
+
+var aliasTags = []string{"", `json:"items,omitempty"`, `json:"a.b"`, `yaml:"x" json:"x"`}
+
+func aliasInput(r *core.RNG, fields []Field, s Spec) Input {
+	s.Name, s.Origin = "x", 0
+	if s.RHS == "" {
+		s.RHS = "sel"
+	}
+	if s.Enabled == "" {
+		s.Enabled = "plain"
+	}
+	in := Input{OriginPkg: "origin", LibPkg: "lib", Types: []OriginType{{Name: "T0", Fields: fields}}, Groups: []Group{{Specs: []Spec{s}}}}
+	if r.Chance(20) {
+		in.WithAs = 1 + r.Intn(4)
+	}
+	return in
+}
+
+func aliasInputs(r *core.RNG, tier string) []Input {
+	var out []Input
+	afield := func(n string, t Ty) Field { return fld(n, t, core.Pick(r, aliasTags)) }
+	// (1) every alias of the two menus as the type of a retained field, next to plain fields (quick: three per struct)
+	all := append(append([]Ty{}, aliasUnnameable...), aliasNameable...)
+	per := 3
+	if tier == "thorough" {
+		per = 1
+	}
+	for i := 0; i < len(all); i += per {
+		fields := []Field{fld("Name", basic("string"), `json:"name"`)}
+		for k := i; k < i+per && k < len(all); k++ {
+			fields = append(fields, afield(fmt.Sprintf("F%d", k-i), all[k]))
+		}
+		fields = append(fields, fld("Labels", mapOf(basic("string"), basic("string")), ""), fld("Secret", basic("string"), `json:"secret"`))
+		s := Spec{Omit: []string{"Secret"}}
+		if r.Chance(30) {
+			s.Omit = nil
+		}
+		out = append(out, aliasInput(r, fields, s))
+	}
+	// (2) the re-export pattern of the property's examples: Items / Index / Item of an internal model package
+	out = append(out, aliasInput(r, []Field{fld("Name", basic("string"), `json:"name"`), fld("Items", aItems, `json:"items,omitempty"`),
+		fld("Index", alias("Index", mapOf(basic("string"), hidEntry)), `json:"index,omitempty"`), fld("First", aItem, `json:"first"`),
+		fld("Secret", basic("string"), `json:"secret"`)}, Spec{Omit: []string{"Secret"}}))
+	// (3) an alias-typed field omitted; the same alias twice; a same-package origin (the struct re-declared in the target package)
+	out = append(out, aliasInput(r, []Field{fld("A", basic("int"), ""), afield("Items", aItems), afield("More", aItems), afield("H", aH)}, Spec{Omit: []string{"More"}}))
+	loc := aliasInput(r, []Field{fld("A", basic("int"), ""), afield("Items", aItems), afield("N", aNames), afield("I", aInner)}, Spec{RHS: "local"})
+	out = append(out, loc)
+	// (4) nameable aliases below the top level
+	nn := 3
+	if tier == "thorough" {
+		nn = 24
+	}
+	for i := 0; i < nn; i++ {
+		out = append(out, aliasInput(r, []Field{fld("A", basic("int"), `json:"a"`), afield("N", nestedNameable(r)), afield("T", core.Pick(r, all))}, Spec{}))
+	}
+	// (5) known finding nested_alias_of_unnameable_type: an alias of an unnameable type below the top level
+	nested := []Ty{slice(aItem), mapOf(basic("string"), aItem), ptr(aItem), array(2, aH), slice(aItems), mapOf(alias("Sec", secretT), basic("int"))}
+	if tier != "thorough" {
+		nested = nested[:2]
+	}
+	for _, t := range nested {
+		out = append(out, aliasInput(r, []Field{fld("A", basic("int"), ""), afield("F", t)}, Spec{}))
+	}
+	// … and the same field omitted: nothing of it is rendered, the rest must be fine
+	out = append(out, aliasInput(r, []Field{fld("A", basic("int"), ""), afield("F", slice(aItem)), afield("G", aItems)}, Spec{Omit: []string{"F"}}))
+	// (6) known finding replaced_alias_field_assigned: a replace tag on a field typed by an alias of a named struct
+	rp := aliasInput(r, []Field{fld("A", basic("int"), ""), fld("Spec", aInner, `json:"spec"`), fld("Status", named("origin", "Inner"), "")},
+		Spec{Replace: []string{"Spec:" + modPath + "/rpl.R", "Status:" + modPath + "/rpl.R json:\"status\""}})
+	out = append(out, rp)
+	if tier == "thorough" {
+		rp2 := aliasInput(r, []Field{fld("Spec", alias("InnerB", aInner), "")}, Spec{Replace: []string{"Spec:" + modPath + "/rpl.R"}})
+		out = append(out, rp2)
+	}
+	return out
+}
+
+// ---- foreign packages whose `package` clause differs from their directory ----
+//
+// Legal and common (go-xxx repositories, versioned directories, renamed packages): directory .../money, `package currency`.
+// gengo's import tracker derives the local name from the import PATH and the generated file must bind exactly that name
+// (`money "…/money"`): an import without a name would bind the DECLARED name (`currency`) and every `money.Amount` in the
+// file would be undefined - or, when the declared name is another imported package's directory name, would denote a
+// type of the wrong package.  Fields: foreign named types of both packages, as field types and as slice / map / pointer /
+// array elements and map keys, replaced and nested ones.
+func declNameInput(r *core.RNG, originDecl, libDecl string) Input {
+	fields := []Field{
+		fld("ID", basic("string"), `json:"id"`),
+		fld("Price", named("lib", "Item"), `json:"price"`),
+		fld("Discounts", slice(named("lib", "Item")), `json:"discounts,omitempty"`),
+		fld("ByCode", mapOf(named("lib", "Code"), core.Pick(r, []Ty{named("lib", "Item"), named("origin", "Inner"), basic("int")})), ""),
+		fld("Kind", named("origin", "Kind"), `json:"kind"`),
+		fld("CreatedAt", named("time", "Time"), `json:"createdAt"`),
+		fld("Secret", basic("string"), `json:"-"`),
+	}
+	switch r.Intn(4) {
+	case 0:
+		fields = append(fields, fld("Ptr", ptr(named("lib", "Item")), ""))
+	case 1:
+		fields = append(fields, fld("Arr", array(2, named("origin", "Inner")), ""), fld("LItem", aLItem, ""))
+	case 2:
+		fields = fields[:3+r.Intn(4)]
+	}
+	s := Spec{Name: "order", RHS: "sel", Origin: 0, Enabled: "plain", Omit: []string{"Secret"}}
+	in := Input{OriginPkg: "origin", LibPkg: "lib", OriginDecl: originDecl, LibDecl: libDecl,
+		Types: []OriginType{{Name: "T0", Fields: fields}}, Groups: []Group{{Specs: []Spec{s}}}}
+	if r.Chance(40) {
+		in.Types[0].Fields = append(in.Types[0].Fields, fld("Spec", named("origin", "Inner"), `json:"spec"`))
+		in.Groups[0].Specs[0].Replace = []string{"Spec:" + modPath + "/rpl.R"}
+	}
+	return in
+}
+
+func declNameInputs(r *core.RNG, tier string) []Input {
+	pairs := [][2]string{{"", "currency"}, {"model", ""}, {"model", "currency"}, {"lib", "origin"}, {"", "origin"}, {"lib", ""}, {"time", "fmt"}}
+	if tier != "thorough" {
+		pairs = pairs[:5]
+	}
+	var out []Input
+	for _, p := range pairs {
+		out = append(out, declNameInput(r, p[0], p[1]))
+		if tier == "thorough" {
+			out = append(out, declNameInput(r, p[0], p[1]), declNameInput(r, p[0], p[1]))
+		}
+	}
+	// other directory names, too
+	m := declNameInput(r, "v2model", "gomoney")
+	m.OriginPkg, m.LibPkg = "model", "money"
+	out = append(out, m)
 	return out
 }
 
@@ -572,6 +783,12 @@ func (prop) Generate(r *core.RNG, tier string) []json.RawMessage {
 	for _, c := range keyOnlyErrorInputs(r.Fork(), tier) {
 		out = append(out, marshal(c))
 	}
+	for _, c := range aliasInputs(r.Fork(), tier) {
+		out = append(out, marshal(c))
+	}
+	for _, c := range declNameInputs(r.Fork(), tier) {
+		out = append(out, marshal(c))
+	}
 	for i := 0; i < n; i++ {
 		switch k := r.Intn(100); {
 		case k < 10:
@@ -737,6 +954,16 @@ func (prop) Shrink(raw json.RawMessage) []json.RawMessage {
 	if in.WithAs != 0 {
 		c := clone(&in)
 		c.WithAs = 0
+		add(c)
+	}
+	if in.OriginDecl != "" {
+		c := clone(&in)
+		c.OriginDecl = ""
+		add(c)
+	}
+	if in.LibDecl != "" {
+		c := clone(&in)
+		c.LibDecl = ""
 		add(c)
 	}
 	// drop the last origin type if nothing refers to it
